@@ -57,8 +57,8 @@ CONVS = {
     "string(minlength=2)": (r"[^/]{2,}", str, STR, None),
     "string(maxlength=2)": (r"[^/]{1,2}", str, STR, None),
     "int": (r"[0-9]+", int, NUM, None),
-    "int(fixed_digits=2)": (r"[0-9]+", int, NUM, _digits(2)),
-    "int(fixed_digits=3)": (r"[0-9]+", int, NUM, _digits(3)),
+    "int(fixed_digits=2)": (r"[0-9]{2}", int, NUM, None),
+    "int(fixed_digits=3)": (r"[0-9]{3}", int, NUM, None),
     "int(signed=True)": (r"-?[0-9]+", int, NUM, None),
     "int(min=2,max=9)": (r"[0-9]+", int, NUM, _range(2, 9)),
     "float": (r"[0-9]+\.[0-9]+", float, NUM, None),
@@ -342,20 +342,34 @@ class RefMap:
         out = []
         pm = merged(p) if (self.merge and "//" in p) else None
         long_run = "///" in p
+        # a rule that opted out of merging (merge_slashes=False on a merging map) and would admit the merged path:
+        # it does not admit the request, but the router meets it on its second pass - before it looks at the
+        # rule's own setting it has already recorded the rule's methods / websocket mismatch, and because the
+        # merged URL belongs to that rule another rule's merged admission is not followed either.  The statement
+        # does not say what should happen there: kind "O", never definite, justifies 405 / WebsocketMismatch /
+        # 404 but no match and no redirect, and makes the other rules' M admissions non-definite.
+        optout = []
+        if pm is not None:
+            for r in self.rules:
+                if not r.merge:
+                    for args, kind, target, _d in self._direct(r, pm, lenient_fixed):
+                        optout.append((r, args, kind, target))
         for r in self.rules:
             for args, kind, target, definite in self._direct(r, p, lenient_fixed):
                 out.append(Adm(r, args, kind, target, definite))
             if pm is not None and r.merge:
                 for args, kind, target, definite in self._direct(r, pm, lenient_fixed):
-                    out.append(Adm(r, args, "M", target if kind == "R" else pm, definite and not long_run))
+                    out.append(Adm(r, args, "M", target if kind == "R" else pm,
+                                   definite and not long_run and not optout))
             elif pm is not None:
-                # the map merges, this rule opted out (merge_slashes=False): not admitted - except that a
-                # strict branch rule reached without its trailing slash is redirected anyway (the slash
-                # redirect is decided before the rule's own setting is looked at); the statement does not
-                # say which setting wins there, so that one is accepted either way
+                # this rule opted out: not admitted - except that a strict branch rule reached without its
+                # trailing slash is redirected anyway (the slash redirect is decided before the rule's own
+                # setting is looked at); accepted either way
                 for args, kind, target, _definite in self._direct(r, pm, lenient_fixed):
                     if kind == "R":
                         out.append(Adm(r, args, "M", target, False))
+        for r, args, kind, target in optout:
+            out.append(Adm(r, args, "O", None, False))
         self._adm_cache[k] = out
         return out
 
@@ -428,7 +442,7 @@ class RefMap:
         adms = self.admissions(p)
         mine = [a for a in adms if a.rule.method_ok(method) and (websocket is None or a.rule.websocket == websocket)]
         direct_def = [a for a in mine if a.definite and a.kind != "M"]
-        return {a.key for a in mine if not any(better(d.rule, a.rule) is True for d in direct_def)}
+        return {a.key for a in mine if a.kind != "O" and not any(better(d.rule, a.rule) is True for d in direct_def)}
 
 
 def judge(ex: Expect, outcome, url_prefix: str = "http://h"):
